@@ -529,6 +529,23 @@ func c12System(c *Ctx) {
 		cfg.AllSlow = c.Plan.Draw(3) > 0
 		c.Res.Probes["cluster-mode-runs-with-restart"]++
 	}
+	// a third of the local cases limit the address space too (--localvmem): a third
+	// semaphore after cores and memory; stages and chunks ask for vmem_gb of their
+	// own (fractional, zero = memory + the configured extra, negative, oversized)
+	vmem := 0
+	if !cluster && (c.Plan.Draw(3) == 0 || os.Getenv("VERIF_C12_VMEM") != "") {
+		vmem = mem + []int{0, 1, 3, 4, 8}[c.Plan.Draw(5)]
+		cfg.Flags = append(cfg.Flags, fmt.Sprintf("--localvmem=%d", vmem))
+		cfg.ChunkVMem = true
+		if c.Plan.Draw(2) == 0 {
+			gcfg.VMem = true
+			prog = Generate(c.Plan, gcfg)
+			cfg.Prog = prog
+			cfg.Overrides = nil
+		}
+		c.Res.Probes["runs-with-localvmem"]++
+	}
+	maxVMem := 0.0
 	swarmSched(c.Plan, cfg)
 	cfg.WJob = 1 // jobs are slow relative to mrp: reservations overlap
 	if cfg.WTime == 0 {
@@ -545,7 +562,7 @@ func c12System(c *Ctx) {
 			r.PreStart = func() { vos.WeatherHook = weatherFor(salt) }
 		}
 		r.StepHooks = append(r.StepHooks, func() {
-			th, mg := 0.0, 0.0
+			th, mg, vm := 0.0, 0.0, 0.0
 			n := 0
 			for _, j := range r.Jobs {
 				if j.proc.Exited || j.proc.Dead || j.JobType != "local" {
@@ -553,6 +570,7 @@ func c12System(c *Ctx) {
 				}
 				th += j.Threads
 				mg += j.MemGB
+				vm += j.VMemGB
 				n++
 			}
 			if th > maxThreads {
@@ -621,6 +639,12 @@ func c12System(c *Ctx) {
 					}
 				}
 			}
+			if vm > maxVMem {
+				maxVMem = vm
+			}
+			if vmem > 0 && vm > float64(vmem)+1e-9 && len(viol) == 0 {
+				viol = append(viol, Violation{"C12", "local-vmem-exceeded", fmt.Sprintf("%d live local jobs reserve %.2f GB of address space in total, --localvmem=%d", n, vm, vmem), r.Steps})
+			}
 			if mg > float64(mem)+1e-9 && len(viol) == 0 {
 				viol = append(viol, Violation{"C12", "local-mem-exceeded", fmt.Sprintf("%d live local jobs reserve %.2f GB in total, --localmem=%d", n, mg, mem), r.Steps})
 			}
@@ -635,6 +659,9 @@ func c12System(c *Ctx) {
 	}
 	if maxMem >= float64(mem)-1e-9 {
 		c.Res.Probes["mem-fully-subscribed"]++
+	}
+	if vmem > 0 && maxVMem >= float64(vmem)-1e-9 {
+		c.Res.Probes["vmem-fully-subscribed"]++
 	}
 	if cluster {
 		c.Res.Probes["cluster-jobs-submitted"] += len(r.Cluster)
@@ -654,7 +681,7 @@ func c12System(c *Ctx) {
 		// a request beyond a limit is clamped, never a reason to fail
 		o := r.outBuf.String()
 		if strings.Contains(o, "Tried to acquire") || strings.Contains(o, "the job manager was only configured") ||
-			strings.Contains(o, "when the maximum is") {
+			strings.Contains(o, "when the maximum is") || strings.Contains(o, "of virtual memory, but") {
 			c.Res.Violations = append(c.Res.Violations, Violation{"C12", "oversized-request-failed-instead-of-clamped",
 				fmt.Sprintf("with --localcores=%d --localmem=%d a job's request was refused instead of being clamped to the limit: %s", cores, mem, lastLines(o, 6)), r.Steps})
 		}
